@@ -8,6 +8,11 @@ ALL = [f'C{i:02d}' for i in range(1, 21)]
 
 # id -> (level text, level note, technique, design ref)
 CHECKS = {
+    'C15': (
+        'Bounded-exhaustive exploration: every term up to the node bound (quick 5, thorough 6) of a grammar that places marker references in every child slot of every expression node kind, each taken as expression (parser and API), predicate, API-built event with/without the marker alias, nested event disjunction, pattern and property, plus a multi-event property family and a specification; every query method of every such object is compared with an independent generic walk over attrs fields, and iterate() is checked to be a parents-first left-to-right traversal.',
+        'Trusts attrs.fields() declaration order and the generic walk; API-only shapes such as a bare this-message argument are outside the alphabet.',
+        'bounded exhaustive term enumeration against a generic attrs-field walk',
+    ),
     'C11': (
         'Complete enumeration of property skeletons: every scope kind x pattern kind x disjunction width 1..3 (quick) / 1..4 (thorough) in each event position, x decorations (predicates, aliases bound on all / some alternatives and referenced later) x time bound x metadata x construction route (parser, API with both nestings); the real canonical_form output is compared with an independently computed activator-major product, outputs are rebuilt through the constructors, metadata identity is checked and canonical_form is re-applied to every output (BFS depth 2).',
         'lift() reads raw attrs fields; the expected product is computed from the documented split positions hard-coded in the harness.',
